@@ -5,6 +5,8 @@ import OptreeModel.Model.Sexp
 import OptreeModel.Model.Ops
 import OptreeModel.Model.OrderSM
 import OptreeModel.Model.RegSM
+import OptreeModel.Model.Twins
+import OptreeModel.Generated.Twins
 import OptreeModel.Generated.Hash
 
 namespace Optree
@@ -365,6 +367,39 @@ def evalOp (st : DriverState) : Sexp → Res Sexp
       let t ← Res.ofDec (decObj tree)
       let r ← Res.ofExcept (treeReplaceNones cfg (.leaf 0 777777) t)
       pure (encOk [encObj r])
+  | .list (.atom "sorttwin" :: keys) => do
+      let ks ← Res.ofDec (decList decKey keys)
+      pure (encOk [encKeys (cxxSort Generated.sortRestores (fun l => l.reverse) (fun l => l) ks),
+                   encKeys (pySort ks)])
+  | .list [.atom "classify", .list [.atom "cd", isType, tsub, fields, mk, asd, bases, n1, n2, n3, bt]] => do
+      let decFields : Sexp → Dec FieldsAttr := fun x => match x with
+        | .atom "absent" => .ok .absent
+        | .atom "tuple-str" => .ok (.exactTuple true)
+        | .atom "tuple-mixed" => .ok (.exactTuple false)
+        | .atom "sub-str" => .ok (.tupleSubclass true)
+        | .atom "sub-mixed" => .ok (.tupleSubclass false)
+        | .atom "other" => .ok .other
+        | _ => .error "fields attr"
+      let decIntA : Sexp → Dec IntAttr := fun x => match x with
+        | .atom "absent" => .ok .absent
+        | .atom "int" => .ok .exactInt
+        | .atom "bool" => .ok .intSubclass
+        | .atom "other" => .ok .other
+        | _ => .error "int attr"
+      let d : ClsDesc := {
+        isType := (← Res.ofDec (decBool isType)), tupleSubclass := (← Res.ofDec (decBool tsub)),
+        fields := (← Res.ofDec (decFields fields)), makeCallable := (← Res.ofDec (decBool mk)),
+        asdictCallable := (← Res.ofDec (decBool asd)), basesIsTuple := (← Res.ofDec (decBool bases)),
+        nFields := (← Res.ofDec (decIntA n1)), nSequenceFields := (← Res.ofDec (decIntA n2)),
+        nUnnamedFields := (← Res.ofDec (decIntA n3)), baseType := (← Res.ofDec (decBool bt)) }
+      pure (encOk [Sexp.bool (cxxIsNamedTuple d), Sexp.bool (pyIsNamedTuple Generated.twinFieldsExact d),
+                   Sexp.bool (cxxIsStructSeq d), Sexp.bool (pyIsStructSeq d)])
+  | .list [.atom "pyonelevel", ins, tree] => do
+      let ins ← Res.ofDec (decBool ins)
+      let t ← Res.ofDec (decObj tree)
+      match pyOneLevel ins t with
+      | Option.none => pure (encOk [.atom "none"])
+      | some o => pure (encOk [l (o.children.map encObj), encData o.data, encKeys o.entries, nat o.kind.toNat])
   | .list (.atom "regsm" :: warnErr :: ops) => do
       let warnErr ← Res.ofDec (decBool warnErr)
       let decNs : Sexp → Dec RNs := fun x => match x with
